@@ -176,6 +176,40 @@ def history_stream(ctx, res):
                     steps.append(round_)
                     if not loads_back(s, cfg, dest, fmt, kp, {}, dict(case, steps=list(steps)), "save-history"):
                         break
+    # (a') values a successful save has to bring back: secrets whose UTF-8 length is a whole number of cipher blocks (or ends like padding),
+    # fields that hold None although they declare another default (at the root, nested, in list items), and — YAML only, which alone
+    # can represent it — a tuple held by an untyped field
+    acct = cc.Schema()
+    acct.user = cc.StringField(default="nobody")
+    acct.retries = cc.IntField(default=3)
+    acct.token = cc.SecureField(method="aes")
+    for fmt in FORMATS:
+        for secrets3 in (("0123456789abcdef", "0123456789abcdef0123456789abcdef", "ab"), ("\u0436" * 8, "fifteen-chars--\x01", "x" * 48), ("sixteen-bytes-\x02\x02", "z", "a" * 15)):
+            n[0] += 1
+            s = cc.Schema()
+            s.proxy = cc.StringField(default="http://proxy.local:3128")
+            s.master = cc.SecureField(method="aes")
+            s.net.timeout = cc.IntField(default=30)
+            s.net.accounts = cc.ListField(acct, default=lambda: [])
+            if fmt == "yaml":
+                s.window = cc.Field(default=(800, 600))
+            kp = os.path.join(tmp, "vk-%d" % n[0])
+            dest = os.path.join(tmp, "vd-%d" % n[0])
+            cfg = s(key_filename=kp)
+            cfg.master = secrets3[0]
+            cfg.proxy = None
+            cfg.net.timeout = None
+            cfg.net.accounts = [{"user": "u1", "token": secrets3[1]}, {"user": "u2", "token": secrets3[2] or None}]
+            cfg.net.accounts[0].retries = None
+            cfg.net.accounts[1].retries = 0
+            case = {"stream": "save-values", "fmt": fmt, "secret_lengths": [len(x.encode()) for x in secrets3]}
+            res.case(stable(case), kind="save-values:" + fmt)
+            try:
+                cfg.save(dest, fmt)
+            except Exception as e:  # noqa
+                res.hist["save-values:save-raised:%s" % type(e).__name__] += 1
+                continue
+            loads_back(s, cfg, dest, fmt, kp, {}, case, "save-values")
     # (b)
     for fmt, optname, values in (("yaml", "root_key", ["server", "mode", "secret", "CONFIG", None, ""]), ("xml", "root_tag", ["server", "mode", "config", "host"])):
         for v in values:
